@@ -448,6 +448,17 @@ def oracle(req, out):
             ms = [f"{k}@{r} below {'/'.join(a for a in anc if a in FINDING_KEY) or '-'}" for k, r, anc in missed[:6]]
             return f"default Visitor: {len(missed)} node(s) never reached {ms}; {len(extra)} reached too often {extra[:6]}"
         return None
+    if op == "vhook":
+        want = collections.Counter(res.schema.parent.get(k) for k, _, _ in walk_nodes(res, module_body(res, t)) if is_interesting(res, k))
+        m = re.match(r"hooks=Stmt:(\d+),Expr:(\d+),Pattern:(\d+),ExceptHandler:(\d+)$", out)
+        if not m:
+            return "unparsable answer"
+        got = dict(zip(("Stmt", "Expr", "Pattern", "ExceptHandler"), map(int, m.groups())))
+        bad = {c: (got[c], want.get(c, 0)) for c in got if got[c] != want.get(c, 0)}
+        if bad:
+            return "dispatcher hooks of the default Visitor (visit_stmt / visit_expr / visit_pattern / visit_excepthandler) are not called once per node: " \
+                   + ", ".join(f"{c}: {g} calls for {w} nodes" for c, (g, w) in bad.items())
+        return None
     if op == "walk":
         want = [f"{k}@{r or '-'}" for k, r, _ in walk_nodes(res, module_body(res, t)) if is_interesting(res, k)]
         if _ev(out, "ev=") != want:
@@ -609,7 +620,7 @@ def _build(ctx):
             streams.append(Stream(f"{g['name']}-{op}", reqs_by_op[op], kind=g["kind"], exhaustive=False,
                                   note=g.get("note", "") + (f" ({nd} sources not accepted by the parser were dropped)" if nd else ""),
                                   harness=None if fs == "default" else {"bin": HARNESS["bin"], "features": fs},
-                                  nontrivial=_nontrivial))
+                                  nontrivial=_nontrivial, compare=(op != "vhook")))
     cov = _coverage(res, all_trees)
     ctx.extra["input_coverage"] = cov
     if dropped:
